@@ -6,7 +6,7 @@
    remaining composition (builder's counting pass / backing arrays -> spec) is exercised by the
    correspondence run only.  See DESIGN.md 6 C01. *)
 From Coq Require Import List NArith.
-Require Import ZV.Bytes ZV.Kernel ZV.Streams ZV.Chunks ZV.Opt ZV.Spec ZV.Layout ZV.LayoutProof ZV.WriteRead.
+Require Import ZV.Bytes ZV.Kernel ZV.Streams ZV.Chunks ZV.Opt ZV.Spec ZV.Layout ZV.LayoutProof ZV.WriteRead ZV.Backing.
 Import ListNotations.
 Open Scope N_scope.
 
@@ -88,3 +88,15 @@ Theorem C01_postings_write_read : forall ft cs, 0 < cs -> forall total, (0 < tot
    decode_hits ft cs fch lch (map fst hits) (None, [], [])))) = Opt.mapopt (spec_hit ft) hits.
 Proof. exact postings_write_read. Qed.
 Print Assumptions C01_postings_write_read.
+
+(* the builder's shared backing arrays: realloc's counting pass carves one array into per-list slices
+   and process appends into them; whenever the counts are upper bounds of the appends per list, after
+   ANY sequence of appends every postings list reads back exactly the values appended to it, in
+   order (no list overwrites its neighbour).  Backing.overflow_overwrites shows the model exhibits the
+   overwrite when a count is too small. *)
+Theorem C01_backing_arrays_no_overlap : forall (A : Type) (dflt : A) (counts : list nat) ops,
+  Forall (fun op => (fst op < length counts)%nat) ops -> bounded A counts ops ->
+  forall p, (p < length counts)%nat ->
+  slice A counts (Backing.run A counts (init A dflt counts) ops) p = appended A ops p.
+Proof. exact backing_no_overlap. Qed.
+Print Assumptions C01_backing_arrays_no_overlap.
